@@ -3,6 +3,7 @@
 //! objects driven by a generated op list. See DESIGN.md §2.2-2.3.
 pub mod agent;
 pub mod exec;
+pub mod links;
 pub mod ops;
 pub mod remote;
 
